@@ -7,8 +7,16 @@ spec -> code : SelectMC.tla enumerates every row request (slices, row lists, sca
 code -> spec : every executed read is projected to (which columns, which original row
                indices, result form) and the per-handle event sequences - plus seeded
                random sessions on larger tables - are judged by SelectTrace.tla.
-Python never decides what a read should return: TLC does (Select.tla: Failing).
+               Long histories (tlc -simulate over NextHist: 30-40 reads on ONE handle over tables of
+               6-8 columns, new / repeated / earliest column selections, rejected calls interleaved)
+               and scale cases (NextScale: tables of 10^5..3*10^5 rows, strided slices and run-length
+               row lists across the 2^16 / 2^17 / 1 MiB-block row boundaries, with the block
+               decomposition the concatenation law gives) are executed too; a long result is
+               projected to the run-length form of the original row numbers (cells are counters,
+               every cell is identified) and judged by the same trace module.
+Python never decides what a read should return: TLC does (Select.tla: FailingT).
 """
+import hashlib
 import os
 import random
 import shutil
@@ -29,9 +37,16 @@ ALLDEV = {"start_lt_minus_n", "start_gt_n", "neg_off_by_one", "stop_lt_start", "
           "fields_scalar", "reduce_falls"}
 
 BOUNDS = {
-    "quick":    dict(MaxN=3, MaxListLen=3, Steps={1, 2, 3}, MaxReads=2, SeqN={2, 3}),
-    "thorough": dict(MaxN=5, MaxListLen=3, Steps={1, 2, 3}, MaxReads=3, SeqN={3}),
+    "quick":    dict(MaxN=3, MaxListLen=3, Steps={1, 2, 3}, MaxReads=2, SeqN={2, 3},
+                     HistCols={6, 7, 8}, HistN={4}, HistLen=36, ScaleNs={131073, 262143, 300000}, SmallNs={8, 9},
+                     ScaleSteps={2, 3, 5, 7}, ScaleThin=40, RunsMaxLen=3),
+    "thorough": dict(MaxN=5, MaxListLen=3, Steps={1, 2, 3}, MaxReads=3, SeqN={3},
+                     HistCols={6, 7, 8}, HistN={3, 5}, HistLen=40,
+                     ScaleNs={100003, 131072, 131073, 157284, 196608, 262143, 262144, 300000}, SmallNs={8, 9, 10, 11},
+                     ScaleSteps={2, 3, 5, 7, 16}, ScaleThin=5, RunsMaxLen=4),
 }
+# long histories: behaviours simulated, text forms per behaviour
+HIST = {"quick": dict(num=60, text=1), "thorough": dict(num=400, text=2)}
 TEXT_DELIMS = [",", ":", "\t", " "]
 
 # ---- tables: 3 columns, names NOT in alphabetical file order in most layouts ------------------
@@ -40,7 +55,20 @@ LAYOUTS = [
     [("z", "i8"), ("y", "i8"), ("x", "i8")],
     [("b", "S5"), ("c", "f4"), ("a", "i2", (2, 2))],
     [("c", "u1"), ("a", "S2", (2,)), ("b", "f4")],
+    # wide tables (long histories: dozens of distinct ordered column selections)
+    [("c3", "i4"), ("c1", "i4"), ("c2", "i4"), ("c0", "i4"), ("c5", "i4"), ("c4", "i4")],
+    [("g", "i4"), ("a", "f8"), ("e", "S3"), ("c", "i2"), ("f", "f4"), ("b", "i8"), ("d", "u1")],
+    [("h", "S4"), ("b", "i4", (2,)), ("d", "f8"), ("a", "i8"), ("g", "S2"), ("c", "f4"), ("f", "u2"), ("e", "i2")],
 ]
+NL3 = 4                                  # the 3-column layouts
+WIDE = {6: 4, 7: 5, 8: 6}                # number of columns -> wide layout
+# scale tables: row size -> layout; every column is a strictly increasing counter pattern, so the original
+# row number of every returned cell is recoverable in O(log n)
+BIG = {12: [("id", "i4"), ("x", "f8")],
+       16: [("k", "i8"), ("t", "S4"), ("f", "f4")],
+       20: [("z", "f8"), ("m", "i4"), ("a", "S8")]}
+B62 = "0123456789ABCDEFGHIJKLMNOPQRSTUVWXYZabcdefghijklmnopqrstuvwxyz"     # in ASCII order
+RUNCAP = 64                              # an observation of more runs than this is cut (it is wrong anyway)
 ALPHA = "abcdefghijklmnopqrstuvwxyzABCDEFGHIJKLMNOPQRSTUVWXYZ0123456789"
 
 
@@ -84,6 +112,7 @@ def make_table(layout, n, be, seed):
 
 class Fixture:
     """one stored table: an sfile (header + data) and a bare recfile with the same rows"""
+    big = False
 
     def __init__(self, root, layout, n, delim, be, seed):
         from esutil import recfile, sfile
@@ -118,6 +147,69 @@ class Fixture:
         return {"layout": self.layout, "n": self.n, "delim": self.delim, "be": self.be}
 
 
+def counter_column(dt, n):
+    i = np.arange(n, dtype="i8")
+    if dt.kind == "S":
+        w = dt.itemsize
+        digits = np.zeros((n, w), dtype="u1")
+        q = i.copy()
+        alpha = np.frombuffer(B62.encode(), dtype="u1")
+        for p in range(w - 1, -1, -1):
+            digits[:, p] = alpha[q % 62]
+            q //= 62
+        return digits.view("S%d" % w).reshape(n)
+    if dt.kind == "f":
+        return (i * 2 + 1).astype(dt) if dt.itemsize == 4 else (i + 0.25).astype(dt)
+    return (i * 3 + 7).astype(dt)
+
+
+class BigFixture:
+    """a long stored table (sfile + bare recfile) whose cells are counters"""
+    big = True
+
+    def __init__(self, root, rs, n, delim, be):
+        from esutil import recfile, sfile
+        self.key = ("B%d" % rs, n, delim, be)
+        self.layout, self.n, self.delim, self.be = "B%d" % rs, n, delim, be
+        dt = np.dtype(BIG[rs])
+        if dt.itemsize != rs:
+            raise MachineryError("scale layout of %d-byte rows has %d bytes" % (rs, dt.itemsize))
+        if be:
+            dt = dt.newbyteorder(">")
+        self.table = np.zeros(n, dtype=dt)
+        for nm in dt.names:
+            self.table[nm] = counter_column(dt[nm], n)
+        self.names = list(dt.names)
+        self.pos = {nm: i + 1 for i, nm in enumerate(self.names)}
+        tag = "B%d_n%d_%s_%s" % (rs, n, "bin" if delim is None else "d%02x" % ord(delim), "be" if be else "ne")
+        self.fn = os.path.join(root, tag + ".sf")
+        self.rfn = os.path.join(root, tag + ".rec")
+        sfile.write(self.table.copy(), self.fn, delim=delim)
+        recfile.write(self.rfn, self.table.copy(), delim=delim)
+        with sfile.SFile(self.fn) as sf:
+            self.full = sf.read()
+            self.offset = sf._data_start
+        self.dtype = self.full.dtype
+        with recfile.Recfile(self.rfn, dtype=self.dtype, delim=delim) as rf:
+            full2 = rf.read()
+        self.ok = (self.full.shape == (n,) and full2.shape == (n,) and self.full.dtype.names == tuple(self.names)
+                   and all(np.array_equal(self.full[nm], self.table[nm]) and np.array_equal(full2[nm], self.table[nm])
+                           and bool(np.all(self.full[nm][1:] > self.full[nm][:-1])) for nm in self.names))
+        self.cols = {nm: np.ascontiguousarray(self.full[nm]).astype(self.full[nm].dtype.newbyteorder("=")) for nm in self.names}
+        self.table = None                   # not needed any more
+
+    def decode(self, nm, el):
+        """original row number of every cell of `el` (a result column), -1 where the cell is not a cell of column nm"""
+        col = self.cols[nm]
+        if el.shape[0] == 0:
+            return np.zeros(0, dtype="i8")
+        j = np.minimum(np.searchsorted(col, el), self.n - 1)
+        return np.where(col[j] == el, j, -1).astype("i8")
+
+    def describe(self):
+        return {"layout": self.layout, "n": self.n, "delim": self.delim, "be": self.be}
+
+
 FIX = {}          # key -> Fixture (created before the fork)
 ROOT = [None]
 SEED = [0]
@@ -129,7 +221,10 @@ def fixture(layout, n, delim, be):
     if fx is None:
         if ROOT[0] is None:
             ROOT[0] = tempfile.mkdtemp(prefix="c02-fix-")
-        fx = FIX[key] = Fixture(ROOT[0], key[0], n, delim, key[3], SEED[0])
+        if isinstance(layout, str):
+            fx = FIX[key] = BigFixture(ROOT[0], int(layout[1:]), n, delim, key[3])
+        else:
+            fx = FIX[key] = Fixture(ROOT[0], key[0], n, delim, key[3], SEED[0])
     return fx
 
 
@@ -148,16 +243,26 @@ def rows_arg(rq, var):
     if k == "list":
         rs = [int(x) for x in rq["rs"]]
         return [rs, tuple(rs), np.array(rs, dtype="i8"), np.array(rs, dtype="i4")][var % 4]
+    if k == "runs":
+        parts = [a + st * np.arange(c, dtype="i8") for a, st, c in rq["rs"]]
+        rs = np.concatenate(parts) if parts else np.zeros(0, dtype="i8")
+        if rs.size > 64:
+            return [rs, rs.astype("i4"), rs, rs.tolist()][var % 4]
+        return [rs.tolist(), tuple(rs.tolist()), rs, rs.astype("i4")][var % 4]
     if k == "slice":
         return slice(*[None if rq[f] == NONE else int(rq[f]) for f in ("s", "e", "st")])
     return None
 
 
+def col_name(fx, c):
+    return fx.names[c - 1] if 1 <= c <= len(fx.names) else "nosuch%d" % c       # not a column: the statement is silent
+
+
 def cols_arg(cq, fx, var):
     if cq["k"] == "name":
-        return fx.names[cq["cs"][0] - 1]
+        return col_name(fx, cq["cs"][0])
     if cq["k"] == "list":
-        nm = [fx.names[c - 1] for c in cq["cs"]]
+        nm = [col_name(fx, c) for c in cq["cs"]]
         return [nm, tuple(nm), np.array(nm)][(var // 4) % 3]
     return None
 
@@ -290,8 +395,84 @@ def project(res, fx, hint):
     return {"err": "none", "shape": "struct", "cols": [fx.pos.get(nm, 0) for nm in names], "rows": rows}
 
 
-def hint_cols(cq):
-    return [1, 2, 3] if cq["k"] == "all" else sorted(set(cq["cs"]))
+def rle(x):
+    """a run-length encoding [[first, step, count], ...] of an integer array (any valid one: the trace module
+    compares denotations); cut after RUNCAP runs"""
+    m = len(x)
+    runs = []
+    if m == 0:
+        return runs
+    d = np.diff(x)
+    brk = np.flatnonzero(d[1:] != d[:-1]) + 1 if m > 2 else np.zeros(0, dtype="i8")      # d[brk] != d[brk - 1]
+    pos = 0
+    while pos < m and len(runs) <= RUNCAP:
+        if pos == m - 1:
+            runs.append([int(x[pos]), 0, 1])
+            break
+        j = int(np.searchsorted(brk, pos, side="right"))
+        e = int(brk[j]) if j < len(brk) else m - 1          # d[pos .. e-1] are equal: elements pos .. e form a run
+        runs.append([int(x[pos]), int(d[pos]), e - pos + 1])
+        pos = e + 1
+    return runs
+
+
+def _plain_big(el, fx, hint):
+    if not isinstance(el, np.ndarray) or el.dtype.names is not None:
+        return None
+    if el.ndim == 0:
+        el = el.reshape(1)
+    cands = [c for c, nm in enumerate(fx.names, 1) if fx.full[nm].dtype == el.dtype and el.ndim == 1]
+    if not cands:
+        return 0, np.full(el.shape[0], -1, dtype="i8")
+    scored = {c: fx.decode(fx.names[c - 1], el) for c in cands}
+    good = [c for c in cands if bool(np.all(scored[c] >= 0))]
+    c = hint if hint in good else (good[0] if good else (hint if hint in cands else cands[0]))
+    return c, scored[c]
+
+
+def project_big(res, fx, hint):
+    """the same projection for a long table: rows in run-length form"""
+    if res is None:
+        return _mal("returned_None")
+    if isinstance(res, tuple):
+        cols, rows = [], None
+        for i, el in enumerate(res):
+            p = _plain_big(el, fx, hint[i] if i < len(hint) else 0)
+            if p is None:
+                return _mal("split_element")
+            cols.append(p[0])
+            if rows is None:
+                rows = p[1]
+            elif not np.array_equal(rows, p[1]):
+                return _mal("split_rows_differ")
+        return {"err": "none", "shape": "split", "cols": cols, "runs": rle(rows if rows is not None else np.zeros(0, "i8"))}
+    if not isinstance(res, np.ndarray):
+        return _mal("type_" + type(res).__name__)
+    if res.dtype.names is None:
+        p = _plain_big(res, fx, hint[0] if hint else 0)
+        return {"err": "none", "shape": "plain", "cols": [p[0]], "runs": rle(p[1])}
+    if res.ndim == 0:
+        res = res.reshape(1)
+    if res.ndim != 1:
+        return _mal("extra_axis")
+    names = res.dtype.names
+    for nm in names:
+        if nm in fx.pos and res.dtype[nm] != fx.full.dtype[nm]:
+            return _mal("field_dtype")
+    rows = None
+    for nm in sorted((nm for nm in names if nm in fx.pos), key=lambda nm: fx.full[nm].dtype.kind == "S"):
+        el = np.ascontiguousarray(res[nm])
+        if rows is None:
+            rows = fx.decode(nm, el)            # the original row of the first cell of every row ...
+        elif rows.size:                         # ... must be the original row of every other cell of that row
+            rows = np.where(fx.cols[nm][np.maximum(rows, 0)] == el, rows, -1)
+    if rows is None:
+        rows = np.full(res.shape[0], -1, dtype="i8")
+    return {"err": "none", "shape": "struct", "cols": [fx.pos.get(nm, 0) for nm in names], "runs": rle(rows)}
+
+
+def hint_cols(cq, fx):
+    return list(range(1, len(fx.names) + 1)) if cq["k"] == "all" else sorted(set(cq["cs"]))
 
 
 def observe(fx, h, hk, ev):
@@ -301,29 +482,54 @@ def observe(fx, h, hk, ev):
         raise
     except Exception as e:  # noqa - any exception is a rejection
         return {"err": "rejected", "shape": "none", "cols": [], "rows": [], "why": type(e).__name__}
-    return project(res, fx, hint_cols(ev["cq"]))
+    if fx.big:
+        if isinstance(res, np.ndarray) and "sid" in ev:      # the bytes of the result, for the composition of the parts
+            ev["dig"] = hashlib.sha1(np.ascontiguousarray(res).tobytes()).hexdigest() if ev["role"] == "whole" else None
+            ev["_bytes"] = np.ascontiguousarray(res).tobytes() if ev["role"] == "part" else None
+        return project_big(res, fx, hint_cols(ev["cq"], fx))
+    return project(res, fx, hint_cols(ev["cq"], fx))
 
 
 def run_session(s):
     """s = {layout, n, delim, be, hk, hvar, events:[{rq,cq,opt,style,var}], fresh}: one open handle
-    (or, fresh=True, a new handle per event)"""
+    (or, fresh=True, a new handle per event).  noise=True: now and then another handle is opened on the same
+    file, read through, and then kept alive or dropped without close()."""
     fx = fixture(s["layout"], s["n"], s["delim"], s["be"])
     out = dict(s)
+    out["nc"] = len(fx.names)
     out["events"] = [dict(e) for e in s["events"]]
     h = None
+    others = []
+    parts = {}
     try:
-        for ev in out["events"]:
+        for k, ev in enumerate(out["events"]):
             if h is None or s.get("fresh"):
                 if h is not None:
                     h.close()
                 h = open_handle(fx, s["hk"], s.get("hvar", 0))
+            if s.get("noise") and k % 5 == 2:
+                g = open_handle(fx, ("SFile", "Recfile")[(k // 5) % 2], k // 5)
+                try:
+                    g.read(rows=[0], columns=[fx.names[(k // 5) % len(fx.names)]])
+                except Exception:  # noqa - not an observation
+                    pass
+                if (k // 5) % 2:
+                    others.append(g)            # stays alive next to the handle under test
+                del g                           # ... or is dropped without close()
             ev["o"] = observe(fx, h, s["hk"], ev)
+            b = ev.pop("_bytes", None)
+            if b is not None:
+                parts.setdefault(ev["sid"], hashlib.sha1()).update(b)
+        for ev in out["events"]:
+            if ev.get("role") == "whole" and ev.get("dig") and ev["sid"] in parts:
+                ev["parts_dig"] = parts[ev["sid"]].hexdigest()
     finally:
-        if h is not None:
-            try:
-                h.close()
-            except Exception:  # noqa
-                pass
+        for g in [h] + others:
+            if g is not None:
+                try:
+                    g.close()
+                except Exception:  # noqa
+                    pass
     return out
 
 
@@ -353,6 +559,20 @@ def list_class(n, rq):
     rs = rq["rs"]
     if rq["k"] == "scalar":
         return "r<0" if rq["r"] < 0 else "r>=0"
+    if rq["k"] == "runs":
+        ends = [(a, a + (c - 1) * st) for a, st, c in rs]
+        f = ["runs=%s" % ("1" if len(rs) == 1 else ">1")]
+        if any(max(e) >= n for e in ends):
+            f.append("r>=n")
+        if any(min(e) < 0 for e in ends):
+            f.append("r<0")
+        if len(set(map(tuple, rs))) < len(rs) or any(st == 0 and c > 1 for a, st, c in rs):
+            f.append("repeats")
+        if any(st < 0 for a, st, c in rs) or [e[0] for e in ends] != sorted(e[0] for e in ends):
+            f.append("unsorted")
+        if any(abs(st) > 1 for a, st, c in rs):
+            f.append("strided")
+        return ",".join(f)
     ln = "len=0" if not rs else "len=1" if len(rs) == 1 else "len>1"
     f = []
     if any(r >= n for r in rs):
@@ -371,8 +591,7 @@ def list_class(n, rq):
 def col_class(cq, opt):
     if cq["k"] == "name":
         return "scalar name"
-    nsel = 3 if cq["k"] == "all" else len(set(cq["cs"]))
-    c = "all columns" if cq["k"] == "all" else "ncols=%d" % nsel
+    c = "all columns" if cq["k"] == "all" else "ncols=%d" % len(set(cq["cs"]))
     if cq["k"] == "list" and cq["cs"] != sorted(cq["cs"]):
         c += ",unordered"
     return c
@@ -384,12 +603,13 @@ def signature(s, ev, clause):
     form = "binary" if s["delim"] is None else "text"
     why = ev["o"].get("why") if ev["o"]["err"] == "malformed" else None
     cl = clause + (":" + why if why else "")
+    big = ",long table" if isinstance(s["layout"], str) else ""
     if clause in ROW_CLAUSES:
         if rq["k"] == "slice":
             path = "slice/binary-allcols" if (form == "binary" and style == "bracket") else "slice/rows-path"
-            return "%s|%s|%s" % (path, cl, slice_class(s["n"], rq))
-        if rq["k"] in ("list", "scalar"):
-            return "rows=|%s|%s" % (cl, list_class(s["n"], rq))
+            return "%s|%s|%s%s" % (path, cl, slice_class(s["n"], rq), big)
+        if rq["k"] in ("list", "scalar", "runs"):
+            return "rows=|%s|%s%s" % (cl, list_class(s["n"], rq), big)
         return "%s.%s/%s|%s|all rows" % (hk, style, form, cl)
     if opt == "reduce":
         red = cq["k"] != "name" and (cq["k"] == "list" and len(set(cq["cs"])) == 1)
@@ -402,12 +622,13 @@ def signature(s, ev, clause):
 # ---- judging ---------------------------------------------------------------------------------------
 def strip(ev):
     o = ev["o"]
+    rows = {"runs": o["runs"]} if "runs" in o else {"rows": o["rows"]}
     return {"q": {"rq": ev["rq"], "cq": ev["cq"], "opt": ev["opt"]},
-            "o": {"err": o["err"], "shape": o["shape"], "cols": o["cols"], "rows": o["rows"]}}
+            "o": dict({"err": o["err"], "shape": o["shape"], "cols": o["cols"]}, **rows)}
 
 
 def to_records(sessions, start=1):
-    return [{"id": start + i, "n": s["n"], "ev": [strip(e) for e in s["events"]]} for i, s in enumerate(sessions)]
+    return [{"id": start + i, "n": s["n"], "nc": s["nc"], "ev": [strip(e) for e in s["events"]]} for i, s in enumerate(sessions)]
 
 
 def replay_case(s, k):
@@ -415,6 +636,7 @@ def replay_case(s, k):
     evs = s["events"][:k + 1] if not s.get("fresh") else [s["events"][k]]
     return {"kind": "session", "seed": SEED[0], "layout": s["layout"], "n": s["n"], "delim": s["delim"], "be": s["be"], "hk": s["hk"],
             "hvar": s.get("hvar", 0), "fresh": bool(s.get("fresh")), "focus": (k if not s.get("fresh") else 0) + 1,
+            "noise": bool(s.get("noise")),
             "events": [{f: e[f] for f in ("rq", "cq", "opt", "style", "var")} for e in evs],
             "observed": [e["o"] for e in evs]}
 
@@ -508,7 +730,7 @@ def sessions_rows(ctx, rowcases, colreqs):
                         if applicable(style, hk, rq, cq, "none"):
                             evs.append(dict(rq=rq, cq=cq, opt="none", style=style, var=var))
                             var += 1
-                out.append(dict(layout=(i + fi) % len(LAYOUTS), n=n, delim=delim, be=(i % 3 == 0), hk=hk, hvar=i + fi,
+                out.append(dict(layout=(i + fi) % NL3, n=n, delim=delim, be=(i % 3 == 0), hk=hk, hvar=i + fi,
                                 events=evs, src=("row", i)))
     return out
 
@@ -519,7 +741,7 @@ def sessions_cols(ctx, colcases, ns):
     for i, c in enumerate(colcases):
         cq, opt = c["cq"], c["opt"]
         for n in ns:
-            for li in range(len(LAYOUTS)) if not ctx.quick else ((i + n) % len(LAYOUTS), (i + n + 2) % len(LAYOUTS)):
+            for li in range(NL3) if not ctx.quick else ((i + n) % NL3, (i + n + 2) % NL3):
                 for fi, delim in enumerate(forms_for(ctx, i + li)):
                     for hk in ("SFile", "Recfile"):
                         evs = []
@@ -556,7 +778,7 @@ def sessions_beh(ctx, behs):
                     if st is None:
                         raise MachineryError("no access style for exported request %s" % q)
                     evs.append(dict(rq=q["rq"], cq=q["cq"], opt=q["opt"], style=st, var=rng.randrange(24)))
-                out.append(dict(layout=(i + fi) % len(LAYOUTS), n=b["n"], delim=delim, be=(i % 2 == 1), hk=hk, hvar=i,
+                out.append(dict(layout=(i + fi) % NL3, n=b["n"], delim=delim, be=(i % 2 == 1), hk=hk, hvar=i,
                                 events=evs, src=("beh", i)))
     return out
 
@@ -601,9 +823,90 @@ def sessions_random(ctx, count, maxn):
                     break
             if st:
                 evs.append(dict(rq=rq, cq=cq, opt=opt, style=st, var=rng.randrange(24)))
-        out.append(dict(layout=rng.randrange(len(LAYOUTS)), n=n, delim=rng.choice([None, None] + TEXT_DELIMS),
+        out.append(dict(layout=rng.randrange(NL3), n=n, delim=rng.choice([None, None] + TEXT_DELIMS),
                         be=rng.random() < 0.3, hk=hk, hvar=rng.randrange(2), events=evs, src=("rand", i)))
     return out
+
+
+def sessions_hist(ctx, hists):
+    """E5: long simulated histories on ONE handle over a wide table; every read judged as now"""
+    out = []
+    rng = random.Random(ctx.seed * 8191 + 3)
+    H = HIST[ctx.tier]
+    for i, b in enumerate(hists):
+        forms = [None] + [TEXT_DELIMS[(i + j) % 4] for j in range(H["text"])]
+        for fi, delim in enumerate(forms):
+            for hk in ("SFile", "Recfile"):
+                evs = []
+                for q in b["reqs"]:
+                    opt = q["opt"]
+                    st = pick_style(rng, hk, q["rq"], q["cq"], opt)
+                    if st is None:          # no way to ask this handle for that option: ask without it
+                        opt = "none"
+                        st = pick_style(rng, hk, q["rq"], q["cq"], opt)
+                    if st is None:
+                        raise MachineryError("no access style for exported request %s" % q)
+                    evs.append(dict(rq=q["rq"], cq=q["cq"], opt=opt, style=st, var=rng.randrange(24)))
+                out.append(dict(layout=WIDE[b["nc"]], n=b["n"], delim=delim, be=(i % 3 == 1), hk=hk, hvar=i + fi,
+                                noise=((i + fi) % 3 == 0), events=evs, src=("hist", i)))
+    return out
+
+
+SCALE_STYLES = {"slice": ("bracket", "chain"), "list": ("kw", "bracket", "chain", "chainread", "subset", "conv"),
+                "runs": ("kw", "bracket", "chain", "chainread", "subset", "conv")}
+
+
+def sessions_scale(ctx, scales):
+    """E6: scale cases - the whole request and (slices) the block sub-requests the concatenation law gives, on one
+    handle of a long table; binary for every case, the text form for the cases of the shortest 16-byte-row table"""
+    big = [c for c in scales if c["rs"] and c["mode"] != "free"]
+    seen, cases = set(), []
+    for c in big:
+        key = repr(sorted(c.items()))
+        if key not in seen:
+            seen.add(key)
+            cases.append(c)
+    if not cases:
+        return []
+    nmin = min(c["n"] for c in cases)
+    groups = {}
+    for i, c in enumerate(cases):
+        forms = [None] + ([","] if (c["rs"] == 16 and c["n"] == nmin and (ctx.quick is False or i % 2 == 0)) else [])
+        for delim in forms:
+            hk = ("SFile", "Recfile")[(i + (delim is not None)) % 2]
+            groups.setdefault((c["rs"], c["n"], delim, hk), []).append((i, c))
+    out = []
+    for (rs, n, delim, hk), lst in sorted(groups.items(), key=repr):
+        for j in range(0, len(lst), 10):
+            evs = []
+            for i, c in lst[j:j + 10]:
+                ok = [st for st in SCALE_STYLES[c["rq"]["k"]] if applicable(st, hk, c["rq"], c["cq"], "none")]
+                if not ok:
+                    raise MachineryError("no access style for scale case %s" % c)
+                style = ok[i % len(ok)]
+                evs.append(dict(rq=c["rq"], cq=c["cq"], opt="none", style=style, var=i, sid=i, role="whole"))
+                for pq in c["parts"]:
+                    evs.append(dict(rq=pq, cq=c["cq"], opt="none", style=style, var=i, sid=i, role="part"))
+            out.append(dict(layout="B%d" % rs, n=n, delim=delim, be=(not ctx.quick and delim is None and j % 20 == 10),
+                            hk=hk, hvar=j, events=evs, src=("scale", j)))
+    return out
+
+
+def check_composition(sessions, failed):
+    """the law as a relation between implementation outputs: the bytes of the block sub-reads, concatenated, are the bytes
+    of the whole read.  TLC has judged every one of them; a difference that it did not see is a hole in the projection."""
+    nchk = 0
+    for si, s in enumerate(sessions):
+        if s["src"][0] != "scale":
+            continue
+        bad = {e["sid"] for k, e in enumerate(s["events"]) if (si, k) in failed or e["o"]["err"] != "none"}
+        for e in s["events"]:
+            if e.get("role") == "whole" and "parts_dig" in e and e["sid"] not in bad:
+                nchk += 1
+                if e["dig"] != e["parts_dig"]:
+                    raise MachineryError("scale case %s: the block sub-reads do not concatenate to the whole read although "
+                                         "every one was accepted by the trace module" % {f: e[f] for f in ("rq", "cq", "style")})
+    return nchk
 
 
 def prepare_fixtures(sessions):
@@ -630,13 +933,24 @@ def execute(ctx, sessions):
 def model_runs(ctx, B):
     base = dict(B, DoExport=False)
     jobs = {
-        "refine": lambda: ctx.tlc("SelectMC.tla", what="normalisation mechanism (deviations off) refines Select; spec theorems",
-                                  cfg_text=cfg(constants=dict(base, Dev=set()), next_="NextCases",
-                                               invariants=["BinRefines", "TxtRefines", "PostRefines", "SpecSane", "ColsSane"]),
-                                  workers=8, require=["ChooseN", "ChooseRows", "ChooseCols"], timeout=3000),
+        "refine": lambda: ctx.tlc("SelectMC.tla", what="normalisation mechanism (deviations off) refines Select; spec theorems "
+                                  "(concatenation law, run-length closed form and comparison)",
+                                  cfg_text=cfg(constants=dict(base, Dev=set()), next_="NextLaws",
+                                               invariants=["BinRefines", "TxtRefines", "PostRefines", "SpecSane", "ColsSane",
+                                                           "RunsLaw", "ConcatLaw", "RunsSameSound", "BlockRefines"]),
+                                  workers=8, require=["ChooseN", "ChooseRows", "ChooseCols", "ChooseXa", "ChooseXb"], timeout=3000),
+        "scale": lambda: ctx.tlc("SelectMC.tla", what="scale cases: block law in closed form, closed form = oracle on small tables; export",
+                                 cfg_text=cfg(constants=dict(base, Dev=set(), DoExport=True), next_="NextScale",
+                                              invariants=["ScaleBlocks", "ScaleLaw"], constraints=["ExportScale"]),
+                                 workers=1, require=["ChooseScaleOf"], timeout=3000),
+        "hist": lambda: ctx.tlc("SelectMC.tla", what="simulate long histories on one handle over wide tables",
+                                cfg_text=cfg(constants=dict(base, Dev=set(), DoExport=True), next_="NextHist",
+                                             invariants=["HistStable"], properties=["HandleStep"], constraints=["ExportHist"]),
+                                workers=1, coverage=False, timeout=3000, simulate="num=%d" % HIST[ctx.tier]["num"],
+                                extra=["-depth", str(2 * B["HistLen"] + 2), "-seed", str(4000 + ctx.seed)]),
         "selftest": lambda: ctx.tlc("SelectMC.tla", what="self-test: pinned deviations violate the refinement invariants",
-                                    cfg_text=cfg(constants=dict(base, Dev=ALLDEV, MaxN=1, MaxListLen=1, Steps={2}), next_="NextCases",
-                                                 invariants=["BinRefines", "TxtRefines", "PostRefines"]),
+                                    cfg_text=cfg(constants=dict(base, Dev=ALLDEV | {"phase_restart"}, MaxN=2, MaxListLen=1, Steps={2}),
+                                                 next_="NextCases", invariants=["BinRefines", "TxtRefines", "PostRefines", "BlockRefines"]),
                                     workers=1, allow_violation=True, coverage=False, continue_=True),
         "export": lambda: ctx.tlc("SelectMC.tla", what="export row / column cases with the mechanism's prediction",
                                   cfg_text=cfg(constants=dict(base, Dev=ALLDEV, DoExport=True), next_="NextCases",
@@ -657,11 +971,13 @@ def model_runs(ctx, B):
                                workers=1, require=["Open", "Read"], timeout=3000),
     }
     n0 = len(ctx.tlc_runs)
-    with ThreadPoolExecutor(3) as ex:
+    with ThreadPoolExecutor(4) as ex:
         futs = {k: ex.submit(f) for k, f in jobs.items()}
         res = {k: f.result() for k, f in futs.items()}
     ctx.tlc_runs[n0:] = sorted(ctx.tlc_runs[n0:], key=lambda r: r["what"])
-    need = {"BinRefines", "TxtRefines", "PostRefines"}
+    for r in ctx.tlc_runs[n0:]:
+        r["violated"] = sorted(set(r["violated"]))      # -continue names an invariant once per violating state
+    need = {"BinRefines", "TxtRefines", "PostRefines", "BlockRefines"}
     if not need <= set(res["selftest"].violated):
         raise MachineryError("self-test failed: deviating mechanism violates only %s" % sorted(set(res["selftest"].violated)))
     if "CursorRefines" not in res["cursor_selftest"].violated:
@@ -712,10 +1028,10 @@ def self_test(ctx, sessions, failed):
     """binding: a corrupted observation must be rejected, and only it"""
     dirty = {si for si, _ in failed}
     probe = next((s for si, s in enumerate(sessions) if si not in dirty and not s.get("fresh") and
-                  any(e["o"]["err"] == "none" and len(e["o"]["rows"]) >= 2 for e in s["events"])), None)
+                  any(e["o"]["err"] == "none" and len(e["o"].get("rows", [])) >= 2 for e in s["events"])), None)
     if probe is None:
         raise MachineryError("binding self-test: no accepted session with a two-row result to corrupt")
-    k = next(i for i, e in enumerate(probe["events"]) if e["o"]["err"] == "none" and len(e["o"]["rows"]) >= 2)
+    k = next(i for i, e in enumerate(probe["events"]) if e["o"]["err"] == "none" and len(e["o"].get("rows", [])) >= 2)
     base = to_records([probe])[0]
     variants = []
     for field, f in (("rows", lambda o: dict(o, rows=o["rows"][1:])),
@@ -723,7 +1039,7 @@ def self_test(ctx, sessions, failed):
                      ("cols", lambda o: dict(o, cols=[(c % 3) + 1 for c in o["cols"]])),
                      ("shape", lambda o: dict(o, shape={"struct": "plain", "plain": "struct", "split": "struct"}[o["shape"]])),
                      ("err", lambda o: dict(o, err="rejected", shape="none", cols=[], rows=[]))):
-        r = {"id": len(variants) + 2, "n": base["n"], "ev": [dict(e) for e in base["ev"]]}
+        r = {"id": len(variants) + 2, "n": base["n"], "nc": base["nc"], "ev": [dict(e) for e in base["ev"]]}
         r["ev"][k] = {"q": base["ev"][k]["q"], "o": f(base["ev"][k]["o"])}
         variants.append(r)
     saved = ctx.traces
@@ -735,6 +1051,50 @@ def self_test(ctx, sessions, failed):
         got = [x for x in clean.get(r["id"], []) if x not in before]
         if not any(x[0] == k + 1 for x in got):
             raise MachineryError("binding self-test failed: corrupted record %d not rejected at event %d (%s)" % (r["id"], k + 1, clean))
+    # the same for a late read of a long history (another selection's columns) and for a run-length observation
+    # (the stride phase slips after the first part of the run; a row missing; a row of another table)
+    recs, want = [], {}
+    hs = next((s for si, s in enumerate(sessions) if si not in dirty and s["src"][0] == "hist"), None)
+    if hs is not None:
+        base = to_records([hs])[0]
+        k = max(i for i, e in enumerate(hs["events"]) if e["o"]["err"] == "none" and e["o"]["cols"])
+        if k < 16:
+            raise MachineryError("binding self-test: no late accepted read in a long history")
+        o = base["ev"][k]["o"]
+        recs.append(dict(base, id=1))
+        r = dict(base, id=2, ev=[dict(e) for e in base["ev"]])
+        r["ev"][k] = {"q": base["ev"][k]["q"], "o": dict(o, cols=[(c % hs["nc"]) + 1 for c in o["cols"]])}
+        recs.append(r)
+        want[2] = k + 1
+    bs = next(((s, i) for si, s in enumerate(sessions) if si not in dirty and s["src"][0] == "scale"
+               for i, e in enumerate(s["events"]) if e["o"]["err"] == "none" and len(e["o"].get("runs", [])) == 1
+               and e["o"]["runs"][0][2] >= 4), None)
+    if bs is not None:
+        s0, k = bs
+        base = to_records([s0])[0]
+        a, st, c = base["ev"][k]["o"]["runs"][0]
+        recs.append(dict(base, id=11))
+        for j, runs in enumerate(([[a, st, c // 2], [a + (c // 2) * st + 1, st, c - c // 2]], [[a, st, c - 1]],
+                                  [[a, st, c - 1], [-1, 0, 1]], [[a, st, c], [a + c * st, 0, 1]])):
+            r = dict(base, id=12 + j, ev=[dict(e) for e in base["ev"]])
+            r["ev"][k] = {"q": base["ev"][k]["q"], "o": dict(base["ev"][k]["o"], runs=runs)}
+            recs.append(r)
+            want[12 + j] = k + 1
+        # a different encoding of the same rows must be accepted
+        r = dict(base, id=20, ev=[dict(e) for e in base["ev"]])
+        r["ev"][k] = {"q": base["ev"][k]["q"], "o": dict(base["ev"][k]["o"], runs=[[a, 5, 1], [a + st, st, c - 2], [a + (c - 1) * st, 0, 1]])}
+        recs.append(r)
+    if recs:
+        saved = ctx.traces
+        got = tracecheck.validate(ctx, "SelectTrace.tla", recs, what="self-test: corrupted late reads / run-length observations rejected",
+                                  workers=1)
+        ctx.traces = saved
+        for rid, ev in want.items():
+            if not any(x[0] == ev for x in got.get(rid, [])):
+                raise MachineryError("binding self-test failed: corrupted record %d not rejected at event %d (%s)" % (rid, ev, got))
+        if any(rid in got for rid in (1, 11, 20)):
+            raise MachineryError("binding self-test failed: an uncorrupted record was rejected (%s)" % got)
+    return hs is not None, bs is not None
 
 
 def run(ctx):
@@ -748,6 +1108,19 @@ def run(ctx):
         behs = res["seq"].records.get("BEH", [])
         if not rowcases or not colcases or not behs:
             raise MachineryError("no cases exported (rows %d, cols %d, behaviours %d)" % (len(rowcases), len(colcases), len(behs)))
+        # tlc -simulate evaluates the export constraint on every successor of the last step: one history per behaviour
+        hists, seenp = [], set()
+        for hh in res["hist"].records.get("HIST", []):
+            pre = repr(hh["reqs"][:-1])
+            if pre not in seenp and len(hh["reqs"]) == B["HistLen"]:
+                seenp.add(pre)
+                hists.append(hh)
+        scales = res["scale"].records.get("SCALE", [])
+        nbig = len([c for c in scales if c["rs"]])
+        if len(hists) < HIST[ctx.tier]["num"] // 2 or nbig < 40 or not any(c["rs"] == 0 for c in scales):
+            raise MachineryError("too few long histories (%d) / scale cases (%d) exported" % (len(hists), nbig))
+        if not any(q["rq"]["k"] == "list" and max(q["rq"]["rs"]) >= hh["n"] for hh in hists for q in hh["reqs"][:-1]):
+            raise MachineryError("no rejected call inside a long history")
         colreqs = [c["cq"] for c in colcases if c["opt"] == "none"]
         sessions = []
         if not only or "e1" in only:
@@ -759,7 +1132,12 @@ def run(ctx):
         nrand, maxn = (1500, 12) if ctx.quick else (30000, 16)
         if not only or "rand" in only:
             sessions += sessions_random(ctx, nrand, maxn)
-        ctx.log("executing %d handle sessions, %d reads" % (len(sessions), sum(len(s["events"]) for s in sessions)))
+        if not only or "hist" in only:
+            sessions += sessions_hist(ctx, hists)
+        if not only or "scale" in only:
+            sessions += sessions_scale(ctx, scales)
+        ctx.log("executing %d handle sessions, %d reads (%d long histories, %d scale cases)" %
+                (len(sessions), sum(len(s["events"]) for s in sessions), len(hists), nbig))
         done = execute(ctx, sessions)
         for s in done[:: max(1, len(done) // 5)][:5]:
             ctx.sample({"table": fixture(s["layout"], s["n"], s["delim"], s["be"]).describe(), "handle": s["hk"],
@@ -768,7 +1146,11 @@ def run(ctx):
         failed = {}
         judge(ctx, done, "judge every read of every handle session (SelectTrace)", failed)
         rep = mech_binding(ctx, rowcases, colcases, done, failed)
-        self_test(ctx, done, failed)
+        ncomp = check_composition(done, failed)
+        st_hist, st_scale = self_test(ctx, done, failed)
+        if not only and not (st_hist and st_scale and ncomp):
+            raise MachineryError("binding self-test: no clean long history / scale session (%s, %s, %d compositions)" %
+                                 (st_hist, st_scale, ncomp))
         nev = sum(len(s["events"]) for s in done)
         ctx.rule = ("every row request for tables of 1..%d rows (every slice with start, stop in [-n-2, n+2] or None and step in None,%s; "
                     "every row list of length 0..%d over [-n-1, n+1] and every permutation of 0..n-1; every scalar in [-n-1, n]) and "
@@ -776,21 +1158,31 @@ def run(ctx):
                     "exported from SelectMC.tla; each executed in every applicable access style (keyword read, bracket, chained "
                     "columns-then-rows, column-subset read, get_subset, convenience readers) on SFile and Recfile handles over binary "
                     "and text files (delimiters , : tab space) of %d table layouts; %d exported behaviours of <= %d reads on one handle; "
-                    "%d seeded random sessions on tables up to %d rows. A case is distinct by (table layout, n, file form, handle, "
-                    "request, style, argument container variant); every one selects from a non-empty table" %
-                    (B["MaxN"], ",".join(str(x) for x in sorted(B["Steps"])), B["MaxListLen"], len(LAYOUTS), len(behs), B["MaxReads"],
-                     nrand, maxn))
+                    "%d seeded random sessions on tables up to %d rows; %d histories of %d reads on one handle (tlc -simulate over "
+                    "NextHist: tables of 6-8 columns, each column selection new / requested before / one of the first three, out-of-range "
+                    "row lists and unknown column names interleaved, other handles on the file opened and dropped meanwhile), every read "
+                    "judged as now; %d scale cases on tables of %s rows with 12-, 16- and 20-byte rows (slices with step in %s and "
+                    "run-length row lists across and at the 2^16 / 2^17 / 1 MiB-block row boundaries, each slice also as the block "
+                    "sub-slices the concatenation law gives; binary, and text for one table), judged in run-length form. A case is "
+                    "distinct by (table layout, n, file form, handle, request, style, argument container variant); every one selects "
+                    "from a non-empty table" %
+                    (B["MaxN"], ",".join(str(x) for x in sorted(B["Steps"])), B["MaxListLen"], NL3, len(behs), B["MaxReads"],
+                     nrand, maxn, len(hists), B["HistLen"], nbig, ",".join(str(x) for x in sorted(B["ScaleNs"])),
+                     ",".join(str(x) for x in sorted(B["ScaleSteps"]))))
         # the first case listed per signature should be a readable one: prefer 3-4 rows and short sessions
         ctx.violations.sort(key=lambda v: (v[0], abs(v[2].get("n", 0) - 3), len(v[2].get("events", []))))
         ctx.exhaustive = True
         ctx.note(bounds={k: sorted(v) if isinstance(v, set) else v for k, v in B.items()}, row_cases=len(rowcases),
                  column_cases=len(colcases), behaviours=len(behs), handle_sessions=len(done), reads=nev,
-                 fixtures=len(FIX))
+                 fixtures=len(FIX), long_histories=len(hists), reads_per_long_history=B["HistLen"], scale_cases=nbig,
+                 scale_compositions_checked=ncomp)
         ctx.assumptions = [
             "the fully-read table is the reference (its faithfulness to what was written is C01/C04; the fixtures are verified to read back as written)",
             "cells are unique tokens, so a result is identified with (columns, original row indices, form); an empty plain array is attributed to the requested column when its dtype fits",
             "scalar rows outside [-n, n) are outside the quantifier (unconstrained); negative entries inside a row list and the empty row list may be rejected or served as numpy would",
             "reduce=True on a selection that is not exactly one structured column must leave the result as it is (the docstring's only reading besides reducing)",
+            "a column name that is not in the table, and a run-length row list with negative or interleaved runs, are outside the statement (any outcome); the calls are made all the same, as steps of the history",
+            "long tables carry counter cells (every column strictly increasing), so the original row of every returned cell is identified exactly; the rows are handed to TLC in run-length form",
         ]
     finally:
         cleanup()
@@ -800,7 +1192,7 @@ def replay(ctx, case):
     SEED[0] = case.get("seed", ctx.seed)
     try:
         s = dict(layout=case["layout"], n=case["n"], delim=case["delim"], be=case["be"], hk=case["hk"], hvar=case.get("hvar", 0),
-                 fresh=case.get("fresh", False), events=case["events"], src=("replay", 0))
+                 fresh=case.get("fresh", False), noise=case.get("noise", False), events=case["events"], src=("replay", 0))
         fx = fixture(s["layout"], s["n"], s["delim"], s["be"])
         if not fx.ok:
             raise MachineryError("reference table does not read back as written")
